@@ -83,6 +83,10 @@ type Parser struct {
 	// the parsing error, if any
 	err ParserError
 
+	// depth of the syntax tree being built at the current position (see
+	// MaxDepth)
+	depth int
+
 	// prefixParseFns holds a map of parsing methods for
 	// prefix-based syntax.
 	prefixParseFns map[token.Type]prefixParseFn
@@ -475,8 +479,28 @@ func (p *Parser) parseExpressionStatement() ast.Node {
 	return expr
 }
 
+// MaxDepth is the maximum depth of the syntax tree the parser will build. The
+// parser, the compiler and the tree's own methods recurse over the tree, so a
+// source text of a few megabytes of nested brackets, prefix operators or one
+// very long operator chain would otherwise exhaust the Go stack, which ends
+// the process.
+const MaxDepth = 100000
+
 func (p *Parser) parseNode(precedence int) ast.Node {
+	// Every nested node and every operator applied to the left operand makes
+	// the tree one level deeper.
+	baseDepth := p.depth
+	node := p.parseNodeAtDepth(precedence)
+	p.depth = baseDepth
+	return node
+}
+
+func (p *Parser) parseNodeAtDepth(precedence int) ast.Node {
 	if p.curToken.Type == token.EOF || p.err != nil {
+		return nil
+	}
+	if p.depth++; p.depth > MaxDepth {
+		p.setTokenError(p.curToken, "expression is nested too deeply (limit %d)", MaxDepth)
 		return nil
 	}
 	postfix := p.postfixParseFns[p.curToken.Type]
@@ -498,6 +522,10 @@ func (p *Parser) parseNode(precedence int) ast.Node {
 			return leftExp
 		}
 		if err := p.nextToken(); err != nil {
+			return nil
+		}
+		if p.depth++; p.depth > MaxDepth {
+			p.setTokenError(p.curToken, "expression is nested too deeply (limit %d)", MaxDepth)
 			return nil
 		}
 		leftExp = infix(leftExp)
@@ -536,6 +564,12 @@ func (p *Parser) illegalToken() ast.Node {
 }
 
 func (p *Parser) setTokenError(t token.Token, msg string, args ...interface{}) ast.Node {
+	if p.err != nil {
+		// Only the first error is kept. Returning early matters when a deeply
+		// nested construct fails: every enclosing level reports the failure
+		// again, and building each report scans the source line.
+		return nil
+	}
 	p.setError(NewParserError(ErrorOpts{
 		ErrType:       "parse error",
 		Message:       fmt.Sprintf(msg, args...),
